@@ -262,8 +262,8 @@ class C14(core.Check):
                   "are never called; the result is the OR of the truthiness of the returned values; the arguments are weak args, "
                   "user args, emit args (then the deprecated user_arg); disconnecting by key or by arguments something not "
                   "connected leaves the state unchanged and raises nothing; connecting to an unregistered name raises NameError "
-                  "and changes nothing; the death of a weak argument removes exactly the handlers that reference it (truthy "
-                  "senders).  Nested emits use fuel; theorems are about emits that return (out-of-fuel = RecursionError is an "
+                  "and changes nothing; the death of a weak argument removes exactly the handlers that reference it (any "
+                  "sender, also one that is false in a boolean context).  Nested emits use fuel; theorems are about emits that return (out-of-fuel = RecursionError is an "
                   "exception and excluded explicitly).  The model is hand-written and tied to signals.py by an exact "
                   "correspondence of event traces and final handler tables.  ORACLE-ONLY (harness, not a theorem): 'the signal "
                   "machinery never keeps a sender or a weak argument alive' is a statement about the CPython heap; it is checked "
